@@ -791,7 +791,12 @@ func TestVerifOverlay(t *testing.T) {
 					}
 				}
 			}
-			if failed {
+			// A step of a non-plain class touched a mechanism with a recorded finding.  Even
+			// when nothing observable differed, the real overlay may now hold other entries
+			// than the specification's (e.g. Delete(k) silently dropped the pending changes of
+			// the child named k, which happened to equal the backend's): rebuild it, so that a
+			// LATER plain step is not blamed for it.
+			if failed || class != "plain" {
 				reset = make([]map[string]bool, s.Obs.Nest)
 				for i := range reset {
 					reset[i] = map[string]bool{}
